@@ -103,6 +103,13 @@ pub fn gen_item(c: &Corpus, rng: &mut Rng) -> Item {
             if rng.chance(1, 4) { l = format!("{} {}", l, rng.pick(&c.test_words)); }
             lines.push(l);
         }
+        // notation twins: the same word typed in americanist and in IPA notation (equal sounds, different spelling of the result)
+        if rng.chance(1, 5) {
+            const TWINS: [(&str, &str); 5] = [("¢a", "t͡sa"), ("ła.ta", "ɬa.ta"), ("ña", "ɲa"), ("aƛ", "at͡ɬ"), ("λo", "d͡ɮo")];
+            let (a, b) = *rng.pick(&TWINS[..]);
+            let (x, y) = if rng.chance(1, 2) { (a, b) } else { (b, a) };
+            if rng.chance(1, 2) { let i = rng.below(lines.len() - 1); lines[i] = x.to_string(); lines[i + 1] = y.to_string(); } else { let i = rng.below(lines.len()); lines[i] = format!("{x} {y}"); }
+        }
         Item { groups, into: vec![], lines }
     }
 }
